@@ -4,6 +4,10 @@ import json, os, sys
 VERIF = os.path.dirname(os.path.dirname(os.path.abspath(__file__)))
 
 CHECKS = {
+ "C01": dict(level="model_checking", design="DESIGN.md §4 C01, §3.3, §3.4",
+   technique="bounded exhaustive enumeration of (rule set, program) pairs against an independent reference assembler",
+   text="All rule sets of 1..2 (thorough: 3) templates from a 27-template pool x every line the pool can produce (every range boundary, labels before/after, constants, undefined names, malformed lines), in one rule block and one block per rule, plus all item sequences up to a length over layout/label/data/instruction items (and a two-bank variant) are assembled by the real assembler and compared — success/failure, bits, every symbol value — with a reference assembler (character-level matcher with its own expression parser, layout, scoping) written from the documented rules.",
+   note="Trusts the reference models refasm/refparse/refx (bound to the real code by agreeing on >300k programs; any disagreement is triaged). Programs outside the reference's defined domain (value-dependent sizes, blanks splitting adjacent literal characters, strings/blocks in arguments) get no verdict and are counted. Iteration budget 30."),
  "C04": dict(level="model_checking", design="DESIGN.md §4 C04",
    technique="bounded exhaustive enumeration of (type, width, value, spelling) against a closed-form reference predicate",
    text="Every (type u/s/i, width 0..16, value in [-2^N-4, 2^N+4], six spellings) triple and every #dN case is assembled with the real assembler and compared with the property's own inequalities and the low-N-bits emission rule; widths 17..256 at every boundary. Complete enumeration of a finite space, so an off-by-one at any width/sign is hit.",
